@@ -156,3 +156,19 @@ func LiveTasks() int { return 0 }
 
 // Symbolic reports whether the harness runs under the symbolic executor.
 func Symbolic() bool { return false }
+
+// Or and And are non-short-circuit boolean connectives: the executor builds a
+// single term instead of forking.
+func Or(a, b bool) bool  { return a || b }
+func And(a, b bool) bool { return a && b }
+
+// Implies is material implication without a fork.
+func Implies(a, b bool) bool { return !a || b }
+
+// Ite selects without a fork.
+func Ite(c bool, a, b int) int {
+	if c {
+		return a
+	}
+	return b
+}
